@@ -17,7 +17,7 @@ type RaceReport struct {
 	HasPogreb bool
 }
 
-var accessHdr = regexp.MustCompile(`(?m)^(Previous )?(Write|Read|Atomic write|Atomic read) (at|of) `)
+var accessHdr = regexp.MustCompile(`(?mi)^(previous )?(atomic )?(write|read) (at|of) `)
 
 // ParseRaceLogs reads all race logs written by one child (GORACE log_path=<work>/race-<shard>).
 func ParseRaceLogs(work string, shard int) []RaceReport {
